@@ -558,12 +558,18 @@ class Circuit:
         marks = [False] * len(self.nodes)
         for n in origin_nodes:
             marks[n] = True
+        late = []
         for n in self.reversed_topological_order():
             if not marks[n]:
                 for line in n.outs:
                     if line is not None:
                         marks[n] |= marks[line.reader]
             if marks[n]:
+                yield n
+            else:
+                late.append(n)
+        for n in late:  # flip-flops and latches are visited before their readers are marked
+            if any(line is not None and marks[line.reader] for line in n.outs):
                 yield n
 
     def fanout_free_regions(self):
